@@ -47,6 +47,7 @@ type Store struct {
 	mu         sync.Mutex
 	rev        int64
 	compactRev int64
+	compacted  bool
 	cur        map[string]*mvccpb.KeyValue
 	log        []*RevRecord // complete history, never truncated (Compact only moves compactRev)
 	leases     map[int64]*lease
@@ -737,12 +738,13 @@ func (st *Store) Txn(r *pb.TxnRequest) (*pb.TxnResponse, error) {
 func (st *Store) Compact(rev int64) (*pb.CompactionResponse, error) {
 	st.mu.Lock()
 	defer st.mu.Unlock()
-	if rev <= st.compactRev {
+	if rev <= st.compactRev && (st.compacted || rev < 0) {
 		return nil, rpctypes.ErrGRPCCompacted
 	}
 	if rev > st.rev {
 		return nil, rpctypes.ErrGRPCFutureRev
 	}
+	st.compacted = true // (a fresh etcd accepts Compact(0): its compaction revision starts at -1)
 	st.compactRev = rev
 	st.notifyLocked()
 	return &pb.CompactionResponse{Header: st.Header(st.rev)}, nil
